@@ -445,17 +445,24 @@ Proof.
         -- exact (Hp3 _ _ Hx).
 Qed.
 
+Lemma arr_list_from_length a k : forall i, length (arr_list_from a k i) = k.
+Proof. induction k as [|k IH]; intros i; cbn [arr_list_from length]; [reflexivity|]. now rewrite IH. Qed.
+
+Lemma arr_list_from_nth a k : forall i j, j < k ->
+  nth_error (arr_list_from a k i) j = Some (arr_get a (i + N.of_nat j)).
+Proof.
+  induction k as [|k IH]; intros i j H; [lia|].
+  cbn [arr_list_from]. destruct j as [|j]; cbn [nth_error].
+  - f_equal. f_equal. lia.
+  - rewrite IH by lia. f_equal. f_equal. lia.
+Qed.
+
 Lemma arr_to_list_length a : length (arr_to_list a) = N.to_nat (a_len a).
-Proof. unfold arr_to_list. rewrite map_length, seq_length. reflexivity. Qed.
+Proof. apply arr_list_from_length. Qed.
 
 Lemma arr_to_list_nth a j : j < N.to_nat (a_len a) ->
   nth_error (arr_to_list a) j = Some (arr_get a (N.of_nat j)).
-Proof.
-  intros H. unfold arr_to_list.
-  rewrite (nth_error_map (fun j => arr_get a (N.of_nat j)) j (seq 0 (N.to_nat (a_len a)))).
-  rewrite (nth_error_nth' _ 0) by (rewrite seq_length; exact H).
-  rewrite seq_nth by exact H. reflexivity.
-Qed.
+Proof. intros H. unfold arr_to_list. rewrite arr_list_from_nth by exact H. reflexivity. Qed.
 
 (* ====================== Part 4: reading the array back ====================== *)
 
@@ -689,4 +696,18 @@ Proof.
     exact (place_in_inorder _ _ _ _ E2). }
   split; [exact Hy|]. split; [exact E3|].
   intros ND. exact (nodup_map_inj it_hash items y x ND Hy Hx E3).
+Qed.
+
+(* the statement of C13_bst_inorder, assembled *)
+Theorem bst_inorder_full items :
+  exists out,
+    make_goodbye_bst items = Some out /\
+    length out = length items /\
+    Permutation out items /\
+    arr_inorder (length out) out 0 = sort_items items /\
+    Permutation items (sort_items items) /\
+    StronglySorted item_le (sort_items items).
+Proof.
+  destruct (bst_inorder_proof items) as (out & H1 & H2 & H3 & H4).
+  exists out. repeat split; try assumption; [apply sort_items_perm|apply sort_items_sorted].
 Qed.
